@@ -51,7 +51,7 @@ def r4_budget(C, rep, rid):
     if not rep.anchor(rid, "PaymentRequest passed to pay", len(prs), 1, fn=L.fn):
         return
     for p, d, a in prs:
-        e = d.get("max_fee_msat")
+        e = mm.inline_pure(C.F, C.X, d.get("max_fee_msat"))
         ok = False
         why = "budget is %s" % show(e)[:140]
         for x in alts(e):
@@ -159,7 +159,7 @@ def e_maxdelay(C, rep, rid):
     if not rep.anchor(rid, "PaymentRequest passed to pay", len(prs), 1, fn=L.fn):
         return
     for p, d, a in prs:
-        e = d.get("max_cltv_delta")
+        e = mm.inline_pure(C.F, C.X, d.get("max_cltv_delta"))
         ok, why = _check_maxdelay(C, e)
         rep.ob(rid, ok, L.fn, "max_cltv_delta expression", where=p.loc, how=show(e)[:160], detail="" if ok else why)
 
@@ -246,7 +246,7 @@ def t_read_at_pay_time(C, rep, rid):
         rep.ob(rid, ok, L.fn, "height is read after readiness", where=h.loc, how="dominated by the ready arm", detail="" if ok else "the chain height is sampled before the set is complete; it may be stale when the payment is made")
     rep.anchor(rid, "height read in the lifecycle", len(L.height), 1, fn=L.fn)
     for p, d, a in pay_request(C):
-        e = d.get("max_cltv_delta")
+        e = mm.inline_pure(C.F, C.X, d.get("max_cltv_delta"))
         gets = [x for x in walk(e) if x[0] == "call" and x[1] == "std::collections::HashMap::get"]
         for g in gets[:1]:
             gbb = g[3][1]
